@@ -549,6 +549,8 @@ impl<D: DagLike, S: SharingTracker<D>> Iterator for PostOrderIter<D, S> {
 
     fn next(&mut self) -> Option<Self::Item> {
         loop {
+            #[cfg(feature = "verif-hooks")]
+            crate::verif_hooks::tick();
             // Look at the current top item on the stack. If nothing, we are done.
             let mut current = self.stack.pop()?;
             if !current.processed {
@@ -733,6 +735,8 @@ impl<D: DagLike, S: SharingTracker<D>> Iterator for PreOrderIter<D, S> {
         // This algorithm is _significantly_ simpler than the post-order one,
         // mainly because we don't care about child indices.
         while let Some(top) = self.stack.pop() {
+            #[cfg(feature = "verif-hooks")]
+            crate::verif_hooks::tick();
             // Only yield if this is the first time we have seen this node.
             if self.tracker.record(&top, 0).is_none() {
                 // If so, mark its children as to-yield, then yield it.
@@ -801,6 +805,8 @@ impl<D: DagLike + Clone, S: SharingTracker<D>> Iterator for VerbosePreOrderIter<
         // This algorithm is still simpler than the post-order one, because while
         // we care about node indices, we don't care about their childrens' indices.
         while let Some(mut top) = self.stack.pop() {
+            #[cfg(feature = "verif-hooks")]
+            crate::verif_hooks::tick();
             // If this is the *first* time we'd be yielding this element, act
             // like the non-verbose pre-order iterator.
             if top.n_children_yielded == 0 {
